@@ -125,25 +125,39 @@ class DiffRun:
                     m[a.prefix] = a.uri
             return m
 
+        problems = []
+
         def rs(path):
-            r = tree.xpath(path, namespaces=nsm())
+            try:
+                r = tree.xpath(path, namespaces=nsm())
+            except etree.XPathEvalError as ex:
+                problems.append((path, "XPathEvalError: %s" % ex))
+                return 0
             if len(r) != 1:
-                raise PathProblem(path, len(r))
+                problems.append((path, "selects %d nodes" % len(r)))
+                return 0
             return lenc.idof(r[0])
+
+        def first(path):
+            try:
+                return tree.xpath(path, namespaces=nsm())[0]
+            except Exception:  # noqa
+                return None
         for a in self.d.diff():
             if pending is not None:
                 tg, pos, nid = pending
-                lenc.add(tg[pos], nid)
+                if tg is not None:
+                    lenc.add(tg[pos], nid)
                 pending = None
             t = type(a).__name__
             raw.append(a)
             if t == "InsertNode":
                 out.append("(IInsert %d %s %d %d)" % (rs(a.target), coq_str(a.tag), a.position, fresh))
-                pending = (tree.xpath(a.target, namespaces=nsm())[0], a.position, fresh)
+                pending = (first(a.target), a.position, fresh)
                 fresh += 1
             elif t == "InsertComment":
                 out.append("(IInsertComment %d %d %s %d)" % (rs(a.target), a.position, coq_ostr(a.text), fresh))
-                pending = (tree.xpath(a.target, namespaces=nsm())[0], a.position, fresh)
+                pending = (first(a.target), a.position, fresh)
                 fresh += 1
             elif t == "MoveNode":
                 out.append("(IMove %d %d %d)" % (rs(a.node), rs(a.target), a.position))
@@ -170,6 +184,9 @@ class DiffRun:
             else:
                 raise ValueError("unknown action " + t)
         self.raw = raw
+        if problems:
+            # the implementation emitted a path that cannot be resolved to exactly one node
+            raise PathProblem(*problems[0])
         return out
 
 
